@@ -49,6 +49,8 @@ type Case struct {
 	// Rename: the case runs with these index property names instead of the generators' fixed ones (names
 	// that are unusual as components of bucket and cache names)
 	Rename gen.Rename `json:"rename,omitempty"`
+	// FirstNodeId > 0: the shard's next internal node id is preset (see gen.History.FirstNodeId)
+	FirstNodeId uint64 `json:"firstNodeId,omitempty"`
 }
 
 // renamed returns the case as it runs: with the property names of c.Rename.
@@ -120,6 +122,9 @@ func genCase(t *rapid.T) Case {
 	}
 	if rapid.IntRange(0, 3).Draw(t, "rename") == 0 {
 		c.Rename = gen.GenRename(t, schema)
+	}
+	if rapid.IntRange(0, 7).Draw(t, "highIds") == 0 {
+		c.FirstNodeId = gen.GenFirstNodeId(t, "firstNode")
 	}
 	return c
 }
@@ -267,6 +272,13 @@ func execCase(c Case) (res vt.Result) {
 	s, err := drive.Open(path, c.Schema, 1<<20, mgr)
 	if err != nil {
 		return vt.Result{Err: err}
+	}
+	if c.FirstNodeId > 0 {
+		if err := s.PresetNextNodeId(c.FirstNodeId); err != nil {
+			s.Close()
+			return vt.Result{Err: err}
+		}
+		rec.Count("cases_with_preset_node_ids", 1)
 	}
 	var parts []*participant
 	defer func() {
